@@ -57,6 +57,14 @@ func VerifNewChunkUDP(src, dst *net.UDPAddr, payload []byte) Chunk {
 	return c
 }
 
+// VerifNewChunkTCP builds a TCP chunk with the given control bits (FIN 1, SYN 2, RST 4, PSH 8, ACK 16).
+func VerifNewChunkTCP(src, dst *net.TCPAddr, flags uint8, payload []byte) Chunk {
+	c := newChunkTCP(src, dst, tcpFlag(flags))
+	c.userData = payload
+
+	return c
+}
+
 // VerifNAT wraps the unexported translator.
 type VerifNAT struct{ n *networkAddressTranslator }
 
